@@ -80,7 +80,10 @@ func checkUnique(c uniqueCase) (o pbt.Outcome, err error) {
 	}
 	gu, gn, gb := make([]int, n), make([]int, n), make([]int, n)
 	mu, mn, mb := make([]int, n), make([]int, n), make([]int, n)
-	any := false
+	// '*', '.', '?' (and X/x in nucleotide rows) are no residues: the doc comment ("does not take into
+	// account 'N' and '-' as unique mutations") is silent about them: counted or not, both accepted
+	muO, mnO, mbO := make([]int, n), make([]int, n), make([]int, n)
+	any, anySpecial := false, false
 	for j := 0; j < l; j++ {
 		cells := col(a, j)
 		cnt := map[uint8]int{}
@@ -103,6 +106,19 @@ func checkUnique(c uniqueCase) (o pbt.Outcome, err error) {
 				continue
 			}
 			if ch == w {
+				continue
+			}
+			if isSpecial(a.Alphabet, ch) {
+				anySpecial = true
+				if cnt[ch] == 1 {
+					muO[i]++
+				}
+				if isNew {
+					mnO[i]++
+				}
+				if cnt[ch] == 1 && isNew {
+					mbO[i]++
+				}
 				continue
 			}
 			if cnt[ch] == 1 {
@@ -129,8 +145,8 @@ func checkUnique(c uniqueCase) (o pbt.Outcome, err error) {
 		if e != nil {
 			return o, fmt.Errorf("NumMutationsUniquePerSequence: %v", e)
 		}
-		if !reflect.DeepEqual(u, mu) || !reflect.DeepEqual(nw, mn) || !reflect.DeepEqual(b, mb) {
-			return o, fmt.Errorf("NumMutationsUniquePerSequence = unique %v new %v both %v, counted unique %v new %v both %v", u, nw, b, mu, mn, mb)
+		if !within(u, mu, muO) || !within(nw, mn, mnO) || !within(b, mb, mbO) {
+			return o, fmt.Errorf("NumMutationsUniquePerSequence = unique %v new %v both %v, counted unique %v new %v both %v (optional, special characters: %v %v %v)", u, nw, b, mu, mn, mb, muO, mnO, mbO)
 		}
 	}
 	if !gen.SameRows(gen.Snapshot(al), a.Rows) {
@@ -138,6 +154,12 @@ func checkUnique(c uniqueCase) (o pbt.Outcome, err error) {
 	}
 	o.NonTrivial = any && n >= 2
 	o.Class("alphabet=%s", a.Alphabet)
+	if anySpecial {
+		o.Class("special-characters(*.?X)")
+		for i := range muO {
+			o.Ambiguous += muO[i] + mnO[i] + mbO[i]
+		}
+	}
 	switch {
 	case c.Profile == nil:
 		o.Class("profile=none")
@@ -149,9 +171,74 @@ func checkUnique(c uniqueCase) (o pbt.Outcome, err error) {
 	return o, nil
 }
 
+// within: sure[i] <= got[i] <= sure[i]+opt[i]
+func within(got, sure, opt []int) bool {
+	if len(got) != len(sure) {
+		return false
+	}
+	for i := range got {
+		if got[i] < sure[i] || got[i] > sure[i]+opt[i] {
+			return false
+		}
+	}
+	return true
+}
+
+// isSpecial: characters that are neither residues, gaps nor the wildcard of the alphabet
+func isSpecial(alpha string, ch byte) bool {
+	switch ch {
+	case '*', '.', '?':
+		return true
+	}
+	return alpha == "nt" && (ch == 'X' || ch == 'x')
+}
+
+// sprinkle puts special characters into some columns, at a low rate: either into every row of the
+// column (identical cells in all rows and in the external reference) or into some rows only
+func sprinkle(t *rapid.T, a *gen.Ali, ext *string) {
+	if rapid.IntRange(0, 3).Draw(t, "specials") != 0 {
+		return
+	}
+	pool := "*.X*.Xx?"
+	if a.Alphabet == "aa" {
+		pool = "*.*.?"
+	}
+	l := a.Length()
+	rows := make([][]byte, len(a.Rows))
+	for i := range rows {
+		rows[i] = []byte(a.Rows[i].Seq)
+	}
+	var e []byte
+	if ext != nil && len(*ext) == l {
+		e = []byte(*ext)
+	}
+	for j := 0; j < l; j++ {
+		if rapid.IntRange(0, 4).Draw(t, "spcol") != 0 {
+			continue
+		}
+		sp := pool[rapid.IntRange(0, len(pool)-1).Draw(t, "sp")]
+		whole := rapid.Bool().Draw(t, "spwhole")
+		for i := range rows {
+			if whole || rapid.IntRange(0, 2).Draw(t, "sprow") == 0 {
+				rows[i][j] = sp
+			}
+		}
+		if e != nil && (whole || rapid.Bool().Draw(t, "spext")) {
+			e[j] = sp
+		}
+	}
+	for i := range rows {
+		a.Rows[i].Seq = string(rows[i])
+	}
+	if e != nil {
+		*ext = string(e)
+	}
+}
+
 func TestUnique(t *testing.T) {
 	pbt.Run(t, func(t *rapid.T) uniqueCase {
 		a, _ := genAli(t, false, 1)
+		sprinkle(t, &a, nil)
 		c := uniqueCase{Ali: a}
 		if rapid.IntRange(0, 2).Draw(t, "withprofile") != 0 {
 			np := rapid.IntRange(1, 5).Draw(t, "profrows")
@@ -204,12 +291,39 @@ type mut struct {
 
 // naive model. strictX: in proteins a reference X is "unknown" and never gives a substitution
 // (the statement says N/X never count; the doc comment only excludes N/X of the compared sequence):
-// both readings are accepted
-func naiveMutations(alpha, seq, ref string, strictX bool) (num int, list []mut) {
+// both readings are accepted.
+//
+// Special characters ('*', '.', '?', and X/x in nucleotide rows): a cell identical to the reference
+// cell (byte-equal; equal after case folding in nucleotides, where the comparison folds case) is never
+// a substitution, insertion or deletion. A non identical pair in which one side is a special character
+// is OPEN: the documentation says nothing, so it may be counted/listed or not. open[k] decides the
+// k-th open position of this pair of sequences for the list; the count is bounded by lo..hi.
+func identicalCell(alpha string, s, r byte) bool {
+	return s == r || (alpha == "nt" && fold(s) == fold(r))
+}
+
+func openPair(alpha string, s, r byte) bool {
+	return !identicalCell(alpha, s, r) && (isSpecial(alpha, s) || isSpecial(alpha, r))
+}
+
+func countOpen(alpha, seq, ref string) int {
+	k := 0
+	for i := 0; i < len(seq); i++ {
+		if openPair(alpha, seq[i], ref[i]) {
+			k++
+		}
+	}
+	return k
+}
+
+func naiveMutations(alpha, seq, ref string, strictX bool, open []bool) (lo, hi int, list []mut) {
 	w := wildOf(alpha)
 	differs := func(s, r byte) bool {
+		if identicalCell(alpha, s, r) {
+			return false
+		}
 		if alpha == "nt" {
-			return !compatible(s, r)
+			return !compatible(fold(s), fold(r))
 		}
 		if strictX && r == 'X' {
 			return false
@@ -218,13 +332,25 @@ func naiveMutations(alpha, seq, ref string, strictX bool) (num int, list []mut) 
 	}
 	ins := ""
 	refi := 0
+	k := 0
 	for i := 0; i < len(seq); i++ {
 		s, r := seq[i], ref[i]
-		if s != '-' && s != w && differs(s, r) {
-			num++
+		isOpen := openPair(alpha, s, r)
+		take := false
+		if isOpen {
+			take = k < len(open) && open[k]
+			k++
+		}
+		if s != '-' && s != w {
+			if isOpen {
+				hi++
+			} else if differs(s, r) {
+				lo++
+				hi++
+			}
 		}
 		if r == '-' {
-			if s != '-' {
+			if s != '-' && (!isOpen || take) {
 				ins += string(s)
 			}
 			continue
@@ -233,7 +359,11 @@ func naiveMutations(alpha, seq, ref string, strictX bool) (num int, list []mut) 
 			list = append(list, mut{'-', refi, ins})
 			ins = ""
 		}
-		if s != w && differs(s, r) {
+		if isOpen {
+			if take && s != w {
+				list = append(list, mut{r, refi, string(s)})
+			}
+		} else if s != w && differs(s, r) {
 			list = append(list, mut{r, refi, string(s)})
 		}
 		refi++
@@ -242,6 +372,38 @@ func naiveMutations(alpha, seq, ref string, strictX bool) (num int, list []mut) 
 		list = append(list, mut{'-', refi, ins})
 	}
 	return
+}
+
+// listAdmissible: the returned list equals the model's list for some decision of the open positions
+// (and one of the two readings of a protein reference X)
+func listAdmissible(alpha, seq, ref string, got []align.Mutation) (ok bool, judged bool) {
+	return listAdmissibleBy(alpha, seq, ref, func(l []mut) bool { return sameList(got, l) })
+}
+
+func listAdmissibleBy(alpha, seq, ref string, same func([]mut) bool) (ok bool, judged bool) {
+	k := countOpen(alpha, seq, ref)
+	if k > 10 {
+		return true, false
+	}
+	open := make([]bool, k)
+	for m := 0; m < 1<<uint(k); m++ {
+		for b := 0; b < k; b++ {
+			open[b] = m&(1<<uint(b)) != 0
+		}
+		for _, strict := range []bool{false, true} {
+			if _, _, l := naiveMutations(alpha, seq, ref, strict, open); same(l) {
+				return true, true
+			}
+		}
+	}
+	return false, true
+}
+
+// numAdmissible: the count lies inside the bounds of one of the two readings
+func numAdmissible(alpha, seq, ref string, got int) (ok bool, sure int) {
+	lo1, hi1, _ := naiveMutations(alpha, seq, ref, false, nil)
+	lo2, hi2, _ := naiveMutations(alpha, seq, ref, true, nil)
+	return (got >= lo1 && got <= hi1) || (got >= lo2 && got <= hi2), lo1
 }
 
 func sameList(got []align.Mutation, want []mut) bool {
@@ -288,7 +450,7 @@ func checkReference(c refCase) (o pbt.Outcome, err error) {
 		ref = a.Rows[c.Ref].Seq
 	}
 	refSeq := align.NewSequence("ref", []uint8(ref), "")
-	anyIndel, anySubst, anyCompat := false, false, false
+	anyIndel, anySubst, anyCompat, anyIdentSpecial, refused := false, false, false, false, false
 	for i, s := range al.Sequences() {
 		for rep := 0; rep < 2; rep++ {
 			num, e1 := s.NumMutationsComparedToReferenceSequence(alphaCode(a.Alphabet), refSeq)
@@ -299,19 +461,29 @@ func checkReference(c refCase) (o pbt.Outcome, err error) {
 				}
 				continue
 			}
+			// '?' has no nucleotide code: an error is an admissible answer (not a crash)
+			if a.Alphabet == "nt" && (strings.Contains(ref, "?") || strings.Contains(a.Rows[i].Seq, "?")) && (e1 != nil || e2 != nil) {
+				if rep == 0 {
+					o.Ambiguous++
+					refused = true
+				}
+				continue
+			}
 			if e1 != nil || e2 != nil {
-				return o, fmt.Errorf("row %d against %q: %v / %v", i, ref, e1, e2)
+				return o, fmt.Errorf("row %d (%q) against %q: %v / %v", i, a.Rows[i].Seq, ref, e1, e2)
 			}
-			n1, l1 := naiveMutations(a.Alphabet, a.Rows[i].Seq, ref, false)
-			n2, l2 := naiveMutations(a.Alphabet, a.Rows[i].Seq, ref, true)
-			if num != n1 && num != n2 {
-				return o, fmt.Errorf("NumMutationsComparedToReferenceSequence(%q vs reference %q) = %d, counted %d", a.Rows[i].Seq, ref, num, n1)
+			seq := a.Rows[i].Seq
+			lo1, hi1, l1 := naiveMutations(a.Alphabet, seq, ref, false, nil)
+			lo2, hi2, _ := naiveMutations(a.Alphabet, seq, ref, true, nil)
+			if !(num >= lo1 && num <= hi1) && !(num >= lo2 && num <= hi2) {
+				return o, fmt.Errorf("NumMutationsComparedToReferenceSequence(%q vs reference %q) = %d, counted %d (at most %d with the open pairs of special characters)", seq, ref, num, lo1, hi1)
 			}
-			if !sameList(list, l1) && !sameList(list, l2) {
-				return o, fmt.Errorf("ListMutationsComparedToReferenceSequence(%q vs reference %q) = [%s], definition gives [%s]", a.Rows[i].Seq, ref, showList(list), showMuts(l1))
+			ok, judged := listAdmissible(a.Alphabet, seq, ref, list)
+			if !ok {
+				return o, fmt.Errorf("ListMutationsComparedToReferenceSequence(%q vs reference %q) = [%s], definition gives [%s] (%d open pairs of special characters tried both ways)", seq, ref, showList(list), showMuts(l1), countOpen(a.Alphabet, seq, ref))
 			}
 			if rep == 0 {
-				if n1 != n2 || !reflect.DeepEqual(l1, l2) {
+				if !judged || lo1 != hi1 || lo1 != lo2 {
 					o.Ambiguous++
 				}
 				for _, m := range l1 {
@@ -322,9 +494,12 @@ func checkReference(c refCase) (o pbt.Outcome, err error) {
 					}
 				}
 				for k := 0; k < l; k++ {
-					x, y := a.Rows[i].Seq[k], ref[k]
-					if a.Alphabet == "nt" && x != y && x != '-' && y != '-' && x != 'N' && compatible(x, y) {
+					x, y := seq[k], ref[k]
+					if a.Alphabet == "nt" && x != y && x != '-' && y != '-' && x != 'N' && !isSpecial("nt", x) && !isSpecial("nt", y) && compatible(x, y) {
 						anyCompat = true
+					}
+					if x == y && isSpecial(a.Alphabet, x) {
+						anyIdentSpecial = true
 					}
 				}
 			}
@@ -382,6 +557,12 @@ func checkReference(c refCase) (o pbt.Outcome, err error) {
 	if anyCompat {
 		o.Class("iupac-compatible-pair")
 	}
+	if anyIdentSpecial {
+		o.Class("identical-special-character-facing-the-reference")
+	}
+	if refused {
+		o.Class("nucleotide-'?':error-accepted")
+	}
 	return o, nil
 }
 
@@ -423,6 +604,7 @@ func genRefCase(t *rapid.T) refCase {
 			c.Ext += "A"
 		}
 	}
+	sprinkle(t, &c.Ali, &c.Ext)
 	return c
 }
 
